@@ -34,6 +34,7 @@ MACHINES = {
     "C16T": "sim.c16t",
     "C09T": "sim.c09t",
     "C15T": "sim.c15t",
+    "C09S": "sim.c09s",
 }
 # a property's check = one or more machines ("parts")
 PARTS = {
@@ -55,6 +56,7 @@ TIERS = {
     "C16T": {"quick": (6000, 200), "thorough": (200000, 2400)},
     "C09T": {"quick": (200, 200), "thorough": (12000, 2400)},
     "C15T": {"quick": (1500, 200), "thorough": (60000, 2400)},
+    "C09S": {"quick": (1200, 120), "thorough": (60000, 1800)},
 }
 
 
